@@ -367,7 +367,106 @@ func Solve(q *Query, quickSec, totalSec int) *SolveResult {
 		}
 	}
 	res.Time += float64(rest)
+	// last resort: exhaustive case split on (up to three) conditions of if-then-else terms in the goal - typically the
+	// "append fits in place" and merged-branch conditions that make memories conditional. Sound: the cases cover
+	// everything; every case must be unsat. A sat case is a model of the original query as well.
+	if !q.Cover && q.Goal != nil {
+		conds := iteConds(q.Goal, 3)
+		if len(conds) > 0 {
+			n := 1 << uint(len(conds))
+			type cr struct {
+				st, out string
+				dt      float64
+			}
+			cch := make(chan cr, n)
+			for m := 0; m < n; m++ {
+				q2 := &Query{Assumes: append([]*Term{}, q.Assumes...), Goal: q.Goal, Values: q.Values}
+				for i, c := range conds {
+					if m&(1<<uint(i)) != 0 {
+						q2.Assumes = append(q2.Assumes, c)
+					} else {
+						q2.Assumes = append(q2.Assumes, Not(c))
+					}
+				}
+				go func() {
+					st, out, dt := runSolver(solvers[0], buildScript(q2, false), quickSec)
+					cch <- cr{st, out, dt}
+				}()
+			}
+			allUnsat := true
+			maxDt := 0.0
+			for m := 0; m < n; m++ {
+				x := <-cch
+				if x.dt > maxDt {
+					maxDt = x.dt
+				}
+				if x.st == "sat" {
+					res.Status, res.Solver, res.Output = "sat", solvers[0].name+"+cases", x.out
+					if len(q.Values) > 0 {
+						res.Values = parseValues(x.out, len(q.Values))
+					}
+					allUnsat = false
+				} else if x.st != "unsat" {
+					allUnsat = false
+				}
+			}
+			res.Time += maxDt
+			res.Tried = append(res.Tried, fmt.Sprintf("case-split(%d):%v:%.2fs", n, allUnsat, maxDt))
+			if allUnsat {
+				res.Status, res.Solver = "unsat", solvers[0].name+"+cases"
+			}
+		}
+	}
 	return res
+}
+
+// iteConds: the first max distinct conditions of ite terms inside t (outermost first), skipping conditions that
+// contain bound variables.
+func iteConds(t *Term, max int) []*Term {
+	var out []*Term
+	seen := map[int]bool{}
+	have := map[int]bool{}
+	var walk func(t *Term, bound map[string]bool)
+	hasBound := func(c *Term, bound map[string]bool) bool {
+		if len(bound) == 0 {
+			return false
+		}
+		for _, s := range termSyms(c) {
+			if bound[s] {
+				return true
+			}
+		}
+		return false
+	}
+	walk = func(t *Term, bound map[string]bool) {
+		if t == nil || len(out) >= max || seen[t.id] {
+			return
+		}
+		seen[t.id] = true
+		if t.Op == "forall" || t.Op == "exists" {
+			nb := map[string]bool{}
+			for k := range bound {
+				nb[k] = true
+			}
+			for _, v := range t.Args[:len(t.Args)-1] {
+				nb[v.Name] = true
+			}
+			walk(t.Args[len(t.Args)-1], nb)
+			return
+		}
+		if t.Op == "ite" && len(t.Args) == 3 {
+			c := t.Args[0]
+			if !have[c.id] && !hasBound(c, bound) && c != True && c != False {
+				have[c.id] = true
+				out = append(out, c)
+			}
+		}
+		for _, a := range t.Args {
+			walk(a, bound)
+		}
+	}
+	walk(t, map[string]bool{})
+	return out
 }
 
 // parseValues parses "((expr val) (expr val) ...)" returning the val strings.
